@@ -17,7 +17,7 @@ extern crate rustc_middle;
 extern crate rustc_session;
 extern crate rustc_span;
 
-use rustc_abi::{FieldsShape, Size};
+use rustc_abi::{FieldsShape, Size, TagEncoding, VariantIdx, Variants};
 use rustc_driver::Compilation;
 use rustc_hir::def::DefKind;
 use rustc_hir::def_id::DefId;
@@ -280,6 +280,61 @@ impl<'tcx> Cx<'tcx> {
                         format!("{{\"static\":{}}}", jstr(&self.tcx.def_path_str(d)))
                     }
                     _ => "{\"ptr\":\"other\"}".into(),
+                }
+            }
+            ty::Adt(def, args) if def.is_enum() => {
+                // which variant is stored (direct tag or niche), then its fields
+                let vidx: Option<VariantIdx> = match &layout.variants {
+                    Variants::Single { index } => Some(*index),
+                    Variants::Multiple { tag, tag_encoding, tag_field, .. } => {
+                        let toff = off + layout.fields.offset(tag_field.as_usize());
+                        let tsize = tag.size(&self.tcx);
+                        match tag_encoding {
+                            TagEncoding::Direct => match self.read_uint(alloc, toff, tsize) {
+                                Some(v) => {
+                                    let bits = tsize.bits();
+                                    let mask: u128 = if bits >= 128 { u128::MAX } else { (1u128 << bits) - 1 };
+                                    def.discriminants(self.tcx).find(|(_, d)| (d.val & mask) == (v & mask)).map(|(i, _)| i)
+                                }
+                                None => None,
+                            },
+                            TagEncoding::Niche { untagged_variant, niche_variants, niche_start } => {
+                                if self.ptr_at(alloc, toff).is_some() {
+                                    Some(*untagged_variant)
+                                } else {
+                                    match self.read_uint(alloc, toff, tsize) {
+                                        Some(v) => {
+                                            let bits = tsize.bits();
+                                            let mask: u128 = if bits >= 128 { u128::MAX } else { (1u128 << bits) - 1 };
+                                            let rel = v.wrapping_sub(*niche_start) & mask;
+                                            let span = (niche_variants.end().as_u32() - niche_variants.start().as_u32()) as u128;
+                                            if rel <= span {
+                                                Some(VariantIdx::from_u32(niche_variants.start().as_u32() + rel as u32))
+                                            } else {
+                                                Some(*untagged_variant)
+                                            }
+                                        }
+                                        None => None,
+                                    }
+                                }
+                            }
+                        }
+                    }
+                    _ => None,
+                };
+                match vidx {
+                    Some(vi) => {
+                        let vl = layout.for_variant(&rustc_middle::ty::layout::LayoutCx::new(self.tcx, self.env), vi);
+                        let mut v = Vec::new();
+                        for (i, f) in def.variant(vi).fields.iter().enumerate() {
+                            let ft = f.ty(self.tcx, args);
+                            let ft = self.tcx.normalize_erasing_regions(self.env, ty::Unnormalized::new_wip(ft));
+                            let fo = vl.fields.offset(i);
+                            v.push(self.decode(alloc, off + fo, ft, depth + 1));
+                        }
+                        format!("{{\"enum_variant\":{},\"fields\":{}}}", vi.as_usize(), jlist(&v))
+                    }
+                    None => format!("{{\"undecoded\":{}}}", jstr(&format!("{:?}", t))),
                 }
             }
             _ => format!("{{\"undecoded\":{}}}", jstr(&format!("{:?}", t))),
